@@ -27,11 +27,16 @@ SiteWhy(L, s) ==
 
 \* the kinds Go can tell apart by field type
 GoKind(k) == CASE k \in StringKinds -> "str" [] k = "uint" -> "int" [] OTHER -> k
+\* the struct must carry every vocabulary row, in order, with a compatible kind (fields the vocabulary does not know are tolerated)
+RECURSIVE FirstMissing(_, _, _, _)
+FirstMissing(P, rows, i, j) ==
+  IF i > Len(P) THEN 0
+  ELSE IF j > Len(rows) THEN i
+  ELSE IF rows[j].t = P[i].t /\ rows[j].k = GoKind(P[i].k) THEN FirstMissing(P, rows, i + 1, j + 1)
+  ELSE FirstMissing(P, rows, i, j + 1)
 VocabWhy(g, rows) ==
-  LET P == Props(g) IN
-  IF Len(rows) # Len(P) THEN <<"field-count:" \o g>>
-  ELSE LET badi == {i \in 1..Len(P) : rows[i].t # P[i].t \/ rows[i].k # GoKind(P[i].k)}
-       IN IF badi = {} THEN <<>> ELSE <<"term:" \o g \o "." \o P[CHOOSE i \in badi : TRUE].t>>
+  LET P == Props(g) m == FirstMissing(P, rows, 1, 1) IN
+  IF m = 0 THEN <<>> ELSE <<"term:" \o g \o "." \o P[m].t>>
 
 \* dynamic observation of one helper x source type x form
 ViewWhy(ev) ==
